@@ -230,6 +230,7 @@ def build_and_run(scratch, headers, main_header, driver_text, cxx="g++", std="c+
                   syntax_only=False, timeout=600, tag="drv"):
     """Writes headers + driver into scratch, compiles, optionally runs.  Returns dict."""
     for name, text in headers.items():
+        os.makedirs(os.path.dirname(scratch.path(name)), exist_ok=True)
         with open(scratch.path(name), "w") as f:
             f.write(text)
     # the driver includes "prog.emb.h"
